@@ -656,7 +656,9 @@ func inlineDefs(list []*nstmt, whole []*nstmt) []*nstmt {
 	return list
 }
 
-func nested(s *nstmt) bool { return s.kind == "if" || s.kind == "switch" || s.kind == "for" || s.kind == "range" }
+func nested(s *nstmt) bool {
+	return s.kind == "if" || s.kind == "switch" || s.kind == "for" || s.kind == "range"
+}
 
 func stmtWritesAny(s *nstmt, paths []string) bool {
 	for _, w := range stmtWrites(s) {
